@@ -644,6 +644,7 @@ static void agc_settle(Ctx& ctx, double target, double level_db_in, int avg, dou
         for (int i = n - m; i < n; ++i) acc += pw[i];
         const double rel = (double)fabsl(acc / m / target - 1);
         ctx.worst("agc settled |P/target - 1|", rel);
+        if (level_db_in <= -80) ctx.worst(fmt("agc settled |P/target - 1| at %.0f dBFS", level_db_in), rel);
         if (!(rel <= 0.01))
             ctx.fail("Agc.process", fmt("mean output power of the last %d samples = %.9g (required gain %.2f dB, max %.0f dB)", m, (double)(acc / m), req_db, maxg),
                      fmt("within 1%% of the target %.9g", target), P().kv("sub", "settle"));
@@ -864,9 +865,11 @@ int main(int argc, char** argv) {
         };
         const TT steps[] = {{0.01, 0.01}, {0.1, 0.002}};
         for (double target : {0.01, 1.0, 100.0})
-            for (int lv = -60; lv <= 20; lv += 10)
+            // absolute input amplitude 1e-5 .. 10 (-100 .. +20 dBFS); max_gain 140 dB keeps the required gain
+            // (<= 120 dB for target 100 at -100 dBFS) below max_gain for every (target, amplitude) pair
+            for (int lv = -100; lv <= 20; lv += (TH ? 5 : 10))
                 for (int avg : {1, 10, 100, 1000})
-                    for (double maxg : {20.0, 60.0})
+                    for (double maxg : {20.0, 60.0, 140.0})
                         for (int let = 0; let < 3; ++let)
                             for (int st = 0; st < (TH ? 2 : 1); ++st) {
                                 if (!ctx.take("agc.settle", P().kv("target", target).kv("level_db", lv).kv("avg", avg).kv("max_gain", maxg)
